@@ -32,7 +32,10 @@ def replay_sobol(data):
     bad = []
     dims = int(data.get("D", 8))
     m = int(data.get("m", 6))
-    for tag, single, batch in (("source", ms.quasirandom_sobol, ms.quasirandom_sobol_batch), ("compiled", cs.quasirandom_sobol, cs.quasirandom_sobol_batch)):
+    routes = (("source", ms.quasirandom_sobol, ms.quasirandom_sobol_batch), ("compiled", cs.quasirandom_sobol, cs.quasirandom_sobol_batch))
+    if data.get("compiled_only"):     # a defect of the data table shows through either kernel; the translated one is slow for 2^12 points
+        routes = routes[1:]
+    for tag, single, batch in routes:
         try:
             pts = batch(1, 2 ** m, dims)
             for (s, e) in data.get("windows", []):
@@ -311,7 +314,7 @@ def sobol_table(ctx, thorough):
     ctx.record("table: first two coordinates form a (0,m,2)-net for every m <= %d and every split (source semantics, enumerated)" % mmax,
                "holds" if net_bad is None else "counterexample", nontrivial=True, method="enumeration")
     if bad_rows or net_bad is not None:
-        ctx.violation("sobol:table", "direction-number table / (0,m,2)-net: %s %s" % (bad_rows[:3], net_bad), {"D": max(2, min(1000, (bad_rows or [2])[0] + 1)), "m": 6}, replay_sobol)
+        ctx.violation("sobol:table", "direction-number table / (0,m,2)-net: %s %s" % (bad_rows[:3], net_bad), {"D": max(2, min(1000, (bad_rows or [2])[0] + 2)), "m": 12 if bad_rows else 6, "compiled_only": bool(bad_rows)}, replay_sobol)
 
 
 def kgf_part(ctx):
